@@ -690,7 +690,7 @@ def gen_estimate_cases(ctx):
                 for data, shots in datas:
                     if quick:
                         # the quick tier samples the grid (every run another sample; the thorough tier runs all of it)
-                        keep = 0.42 if small else (0.07 if heavy else 0.22)
+                        keep = 0.36 if small else (0.07 if heavy else 0.2)
                         if data == "exact" and algo == "bt":
                             keep = 0.9 if small else (0.15 if heavy else 0.5)
                         if rng.random() >= keep:
@@ -862,20 +862,20 @@ def chk_select_errors(ctx, case):
 def sub_select(ctx):
     rng = ctx.rng
     cases = []
-    settings = S_LIGHT if ctx.quick else [t for t in S_THOROUGH if t[1] != "2qubit"]
+    settings = S_LIGHT if (not wide(ctx)) else [t for t in S_THOROUGH if t[1] != "2qubit"]
     n = 0
     for kind, sysname, mo in settings:
-        core = (kind, sysname, mo) in S_CORE or not ctx.quick
+        core = (kind, sysname, mo) in S_CORE or wide(ctx)
         for para in (True, False):
             for flags in ([True, True], [True, False], [False, True], [False, False]) if core else ([True, True], rng.choice([[True, False], [False, True]])):
                 for order in ("eq_ineq", "ineq_eq") if (core or flags == [True, True]) else ("eq_ineq",):
-                    algos = ("bt", "mom", "fista") if not ctx.quick else (rng.choice(["bt", "mom", "fista"]),)
+                    algos = ("bt", "mom", "fista") if wide(ctx) else (rng.choice(["bt", "mom", "fista"]),)
                     for algo in algos:
                         maxit = rng.choice([1, 2, 100000]) if flags == [True, True] else 100000
                         cases.append(dict(id="s%d" % n, kind=kind, sys=sysname, m=mo, para=para, algo=algo, flags=flags, order=order, maxit=maxit)); n += 1
             if not core:
                 continue
-            for _ in range(ctx.n(2, 6)):
+            for _ in range((6 if wide(ctx) else 2)):
                 f0 = rng.choice([[True, True], [True, False], [False, True], [False, False]])
                 f1 = rng.choice([f for f in ([True, True], [True, False], [False, True], [False, False]) if f != f0])
                 cases.append(dict(id="s%d" % n, kind=kind, sys=sysname, m=mo, para=para, algo=rng.choice(["bt", "mom", "fista"]), flags=f1,
@@ -1199,18 +1199,18 @@ def sub_steps(ctx):
     rng = ctx.rng
     cases = []
     # the extracted model evaluates the rational loss exactly: cost grows fast with the number of variables (instruments: thorough tier only)
-    settings = S_CORE if ctx.quick else S_CORE + [("qmpt", "1qubit", None), ("povmt", "1qutrit", 2), ("qst", "2qubit", None)]
+    settings = S_CORE if (not wide(ctx)) else S_CORE + [("povmt", "1qutrit", 2)] + ([("qmpt", "1qubit", None), ("qst", "2qubit", None)] if not ctx.quick else [])
     n = 0
     for kind, sysname, mo in settings:
         for para in (True, False):
             for algo in ("bt", "mom", "fista"):
-                for data, shots in (("fewshot", 2), ("far", 5), ("exact", 100)) if not ctx.quick else (("fewshot", 2), ("far", 5)):
+                for data, shots in (("fewshot", 2), ("far", 5), ("exact", 100)) if wide(ctx) else (("fewshot", 2), ("far", 5)):
                     r = rng.random()
                     flags = [True, True] if r < 0.7 else ([True, False] if r < 0.85 else [False, True])
                     big = kind in ("qpt", "qmpt") or sysname != "1qubit"
                     cases.append(dict(id="t%d" % n, kind=kind, sys=sysname, m=mo, para=para, algo=algo, data=data, shots=shots,
                                       truth=rng.choice(["boundary", "interior", "generic"]), flags=flags, order=rng.choice(["eq_ineq", "ineq_eq"]),
-                                      maxit=(4 if big else 8) if ctx.quick else (10 if big else 25))); n += 1
+                                      maxit=(4 if big else 8) if (not wide(ctx)) else (10 if big else 25))); n += 1
     ctx.sample("steps", cases[0])
     ctx.run_cases("steps", chk_steps, stamp(ctx, cases))
 
@@ -1249,7 +1249,7 @@ def chk_run_eq(ctx, case):
 def sub_run_eq(ctx):
     rng = ctx.rng
     cases = []
-    for i in range(ctx.n(8, 40)):
+    for i in range((40 if wide(ctx) else 8)):
         sysname = rng.choice(["1qubit", "1qubit", "1qutrit"])
         data, shots = rng.choice([("fewshot", 3), ("far", 5), ("exact", 100)])
         cases.append(dict(id="r%d" % i, sys=sysname, data=data, shots=shots, truth=rng.choice(["boundary", "interior", "generic"]), maxit=rng.choice([1, 2, 3, 5, 12, 40])))
@@ -1473,6 +1473,54 @@ SUBS = [("select", sub_select), ("reuse", sub_reuse), ("reuse_linear", sub_reuse
 FNS = {"select": chk_select, "reuse": chk_reuse, "reuse_linear": chk_reuse_linear, "origin": chk_origin, "steps": chk_steps, "run_eq": chk_run_eq, "ple": chk_ple, "projref": chk_projref, "ineq_var": chk_ineq_var, "estimates": chk_estimate}
 
 
+# ====================================================================================== translator tie
+def regen_tie(ctx):
+    """regenerate (gen/c10_py2coq.py) the Gallina text of the decision function (ProjectedGradientDescent.__init__ /
+    set_constraint_from_standard_qt_and_option, QOperation.func_calc_proj_physical_with_var) and of the three optimize loops (+ _is_doing_for_alpha)
+    from the CURRENT source, compile it and re-check coq/gen/C10_Equiv.v (regenerated = hand-written model for ALL inputs; theorems transported).
+    returns (ok, info)"""
+    import os, re, shutil, subprocess, sys
+    import runner
+    V = runner.V
+    scratch = os.path.join(ctx.scratch, "gen")
+    os.makedirs(scratch, exist_ok=True)
+    gen_v = os.path.join(scratch, "Gen_c10.v")
+    equiv = os.path.join(V, "coq", "gen", "C10_Equiv.v")
+    src = open(equiv).read()
+    src_nc = re.sub(r"\(\*.*?\*\)", " ", src, flags=re.S)
+    thms = re.findall(r"^\s*Theorem\s+([\w']+)", src_nc, flags=re.M)
+    ctx.theorems = list(ctx.theorems) + [t for t in thms if t not in ctx.theorems]
+    ctx.obligations += len(thms)
+    r = subprocess.run([sys.executable, os.path.join(V, "gen", "c10_py2coq.py"), os.environ.get("VERIF_REPO", "/repo"), gen_v],
+                       capture_output=True, text=True, timeout=120)
+    if r.returncode != 0:
+        return False, {"theorem": thms[0], "error": "translator rejected the source (outside its subset): " + (r.stdout + r.stderr)[-600:]}
+    qa = ["-Q", os.path.join(V, "coq", "theories"), "QV", "-Q", scratch, "QVGen"]
+    r = subprocess.run(["timeout", "300", "coqc"] + qa + [gen_v], capture_output=True, text=True)
+    if r.returncode != 0:
+        return False, {"theorem": thms[0], "error": "regenerated model does not compile: " + (r.stdout + r.stderr)[-600:]}
+    dst = os.path.join(scratch, "C10_Equiv.v")
+    shutil.copy(equiv, dst)
+    r = subprocess.run(["timeout", "600", "coqc"] + qa + [dst], capture_output=True, text=True)
+    out = r.stdout + r.stderr
+    if r.returncode != 0:
+        mm = re.search(r"line (\d+), characters", out)
+        thm = None
+        if mm:
+            upto = "\n".join(src.splitlines()[:int(mm.group(1))])
+            names = re.findall(r"^\s*(?:Theorem|Lemma)\s+([\w']+)", upto, flags=re.M)
+            thm = names[-1] if names else None
+        return False, {"theorem": thm, "error": out[-800:]}
+    blocks = runner.parse_assumptions(out)
+    bad = [a for closed, axs in blocks for a in axs if a not in runner.ALLOWED_AXIOMS and a.split(".")[-1] not in runner.ALLOWED_AXIOMS]
+    if len(blocks) != len(thms) or bad:
+        return False, {"theorem": thms[0], "error": "assumption gate on regenerated proofs: %d blocks / %d theorems, disallowed %s" % (len(blocks), len(thms), bad)}
+    for t, (closed, axs) in zip(thms, blocks):
+        ctx.axioms[t] = "closed" if closed else sorted(set(axs))
+    ctx.discharged += len(thms)
+    return True, {}
+
+
 def run(ctx):
     ctx.rule = ("cases: quara's typical testers (1 qubit: x0,y0,z0,z1 / X,Y,Z; qutrit: 9 states / 7 POVMs; 2 qubits thorough) x both parametrisations x "
                 "truths (boundary = pure / projective / unitary, interior, seeded generic) x data (exact, few-shot multinomial samples with zeros, "
@@ -1481,7 +1529,32 @@ def run(ctx):
                 "(runs labelled by whether a halving / magnitude change / extrapolation occurred); ple = the projection moved the linear estimate; "
                 "estimates = anything but exact data of an interior truth; exact-recovery cases that hit the iteration cap are trivial; decisions "
                 "(Armijo, stop, log10 magnitude) within their bands are counted trivial, never as agreement")
-    flow.standard_run(ctx, SUBS)
+    # flow.standard_run with this property's own translator tie (flow.regen_check is bound to gen/py2coq.py)
+    import runner
+    ok, info = runner.check_props(ctx)
+    ok2, info2 = regen_tie(ctx)
+    if not ok2:
+        ok, info = False, info2
+        ctx.note("regenerated model of the decision function / the three optimize loops (coq/gen/C10_Equiv.v) not discharged: %s" % str(info2)[:500])
+        # the tie is broken: widen the differential sweeps that exercise the translated code (select, steps, run_eq run their thorough-tier
+        # case lists) to find a concrete failing input
+        ctx.c10_tie_broken = True
+    if not ok:
+        ctx.discharged = min(ctx.discharged, ctx.obligations - 1)
+    for name, fn in SUBS:
+        if ctx.only is None or name in ctx.only:
+            fn(ctx)
+    if not ok and not ctx.violations:
+        ctx.violation("theorems", "Props/%s.v" % ctx.prop_id, "theorem-broken:%s" % info.get("theorem"),
+                      "theorem %s no longer checks: %s" % (info.get("theorem"), info.get("error", "")[-400:]),
+                      {"theorem": info.get("theorem"), "error": info.get("error")}, no_input=True)
+    elif not ok:
+        ctx.note("theorem obligations not discharged: %s" % info)
+
+
+def wide(ctx):
+    """quick-tier case lists are replaced by the thorough ones for the sub-checks tied to translated code when the translator tie is broken"""
+    return (not ctx.quick) or getattr(ctx, "c10_tie_broken", False)
 
 
 def replay(ctx, doc):
